@@ -164,6 +164,10 @@ def chain(ctx, key, tag):
 
 
 def rules(ctx):
+    from . import formulas
+    before = len(ctx.obligations)
+    formulas.network_predicates(ctx, "R3")
+    ctx.obligations[before:] = [o for o in ctx.obligations[before:] if "maintenance_considered" in o.id]
     chain(ctx, "server::solve_instance", "R1.server")
     chain(ctx, "internal::run", "R2.internal")
     # the alignment itself (shared with C05.R1): each end depot is the successor's start depot, for every vehicle
